@@ -100,7 +100,12 @@ func genCompleteFrame(t *rapid.T, small bool) (frame []byte, kind string) {
 		// a large frame: remaining length in its 3- or 4-byte form
 		m := model.New(model.PUBLISH)
 		m.TopicName = "big"
-		padToRemainingLength(&m, rapid.SampledFrom([]int{65535, 65536, 65536, 65537, 70000, 131072, 262144, 1<<20 - 1, 1 << 20, 1<<20 + 7, 2097151, 2097152, 2097153, 3 << 20}).Draw(t, "largerl"))
+		target := rapid.SampledFrom([]int{65535, 65536, 65536, 65537, 70000, 131072, 262144, 1<<20 - 1, 1 << 20, 1<<20 + 7, 2097151, 2097152, 2097153, 3 << 20}).Draw(t, "largerl")
+		if rapid.IntRange(0, 11).Draw(t, "verylarge") == 0 {
+			// beyond the next buffer thresholds an implementation may have
+			target = rapid.SampledFrom([]int{1<<22 + 3, 1<<23 + 1, 1<<24 - 1, 1 << 24, 1<<24 + 9, 1<<25 + 5}).Draw(t, "verylargerl")
+		}
+		padToRemainingLength(&m, target)
 		m.Normalize()
 		return ref.Canonical(&m), "valid-large"
 	}
@@ -316,7 +321,7 @@ var _ = io.EOF
 // wrapKinds are the concrete reader types a stream is offered through: code
 // that type-asserts its reader (io.ByteReader, *bufio.Reader, *bytes.Buffer)
 // takes other paths for them.
-var wrapKinds = []string{"script", "script", "bytes.Reader", "bytes.Buffer", "bufio16", "bufio4096", "chunklen"}
+var wrapKinds = []string{"script", "script", "bytes.Reader", "bytes.Buffer", "bufio16", "bufio4096", "chunklen", "deadline"}
 
 // wrappedStream offers sr (or its data) through a reader of the given kind
 // and reports how many bytes of the stream the consumer has taken so far.
@@ -336,6 +341,11 @@ func wrappedStream(kind string, sr *guard.ScriptReader) (io.Reader, func() int) 
 		return r, func() int { return sr.Consumed() - r.Buffered() }
 	case "chunklen":
 		return guard.ChunkLenReader{ScriptReader: sr}, sr.Consumed
+	case "deadline":
+		// a reader with SetReadDeadline whose peer is slow (virtually: an
+		// hour between any two reads): only a consumer that sets a deadline
+		// of its own ever sees a timeout from it
+		return &guard.DeadlineReader{ScriptReader: sr}, sr.Consumed
 	}
 	return sr, sr.Consumed
 }
